@@ -15,9 +15,11 @@ Theorem C15_generated_facts : facts_ok gen_facts = true.
 Proof. reflexivity. Qed.
 Theorem C15_generated_timestamp_record :
   gen_ts = {| ts_desc_name := "record/timestamp"; ts_k1 := "ts"; ts_t1 := "datetime";
-              ts_k2 := "ts_description"; ts_t2 := "string"; ts_select := "datetime" |}.
+              ts_k2 := "ts_description"; ts_t2 := "string"; ts_select := "datetime";
+              ts_meta := ["_source"; "_classification"; "_generated"] |}.
 Proof. reflexivity. Qed.
-(* reserved names are distinct; 'ts' and 'ts_description' are different names and not reserved *)
+(* reserved names are distinct; 'ts' and 'ts_description' are different names and not reserved; the slots copied
+   from the original record onto every expansion output are exactly the reserved slots other than _version *)
 Theorem C15_generated_reserved_distinct : tables_ok gen_reserved gen_ts = true.
 Proof. reflexivity. Qed.
 
@@ -51,13 +53,15 @@ Proof. intros V vver dflt. exact (extend_facts gen_reserved vver dflt gen_ts gen
 
 (* ---- per-timestamp expansion: one output per datetime field f, at any position and under any name:
         ts = the ORIGINAL record's value of f, ts_description = f's name, then every original field not called
-        ts / ts_description with its own type and value, in order; no datetime field => the record itself.
+        ts / ts_description with its own type and value, in order; the reserved slots are the ORIGINAL record's
+        _source / _classification / _generated (whatever a fresh TimestampRecord carries in them: tsres) and the
+        stamped _version; no datetime field => the record itself.
         Holds whether or not the loop extends the previously yielded record (gen_ts_extends_previous). ---- *)
 Theorem C15_expand :
   forall (V : Type) (vver : V) (vname dflt : string -> V) (tsres : list V) (r : @rec V),
     List.length tsres = List.length gen_reserved -> wf gen_reserved r ->
     p_iter_timestamped gen_reserved vver vname dflt gen_ts tsres gen_facts gen_ts_extends_previous r
-    = Some (ref_expand gen_reserved vver vname gen_ts tsres r).
+    = Some (ref_expand gen_reserved vver vname gen_ts r).
 Proof.
   intros V vver vname dflt tsres.
   exact (expand_facts gen_reserved vver vname dflt gen_ts tsres gen_facts eq_refl eq_refl gen_ts_extends_previous).
@@ -139,16 +143,28 @@ Definition w_tsres : list val := [VNone; VNone; VTok 0%N; w_ver].
 (* t/a(datetime a, string x, datetime ts) *)
 Definition w_rec : @rec val :=
   mkRec "t/a" [("a", ("datetime", VTok 11%N)); ("x", ("string", VTok 12%N)); ("ts", ("datetime", VTok 13%N))]
-        [VNone; VNone; VTok 2%N; w_ver].
+        [VName "host1"; VNone; VTok 2%N; w_ver].
 (* before 090c4ab the second output carried the first field's value (VTok 11) under ts_description = 'ts' *)
 Theorem C15_expand_prefix_refuted :
   wf gen_reserved w_rec /\
   orecs_eqb (p_iter_timestamped gen_reserved w_ver VName w_dflt gen_ts w_tsres (unfix_expand gen_facts) gen_ts_extends_previous w_rec)
-            (Some (ref_expand gen_reserved w_ver VName gen_ts w_tsres w_rec)) = false /\
+            (Some (ref_expand gen_reserved w_ver VName gen_ts w_rec)) = false /\
   option_map (map (fun o => rec_get gen_reserved o "ts"))
              (p_iter_timestamped gen_reserved w_ver VName w_dflt gen_ts w_tsres (unfix_expand gen_facts) gen_ts_extends_previous w_rec)
   = Some [Some (VTok 11%N); Some (VTok 11%N)].
 Proof. exact (conj (wfb_wf val gen_reserved w_rec eq_refl) (conj eq_refl eq_refl)). Qed.
+
+(* before 4a5ea6a the outputs carried the fresh TimestampRecord's _source / _classification / _generated
+   (None, None, now = VTok 0) instead of the original record's ("host1", None, VTok 2) *)
+Theorem C15_expand_metadata_prefix_refuted :
+  orecs_eqb (p_iter_timestamped gen_reserved w_ver VName w_dflt (unfix_meta gen_ts) w_tsres gen_facts gen_ts_extends_previous w_rec)
+            (Some (ref_expand gen_reserved w_ver VName gen_ts w_rec)) = false /\
+  option_map (map (@rres val))
+             (p_iter_timestamped gen_reserved w_ver VName w_dflt (unfix_meta gen_ts) w_tsres gen_facts gen_ts_extends_previous w_rec)
+  = Some [[VNone; VNone; VTok 0%N; w_ver]; [VNone; VNone; VTok 0%N; w_ver]] /\
+  map (@rres val) (ref_expand gen_reserved w_ver VName gen_ts w_rec)
+  = [[VName "host1"; VNone; VTok 2%N; w_ver]; [VName "host1"; VNone; VTok 2%N; w_ver]].
+Proof. exact (conj eq_refl (conj eq_refl eq_refl)). Qed.
 
 (* [m/a(x='ax', p=1), m/b(x='bx', z='bz')]._replace(z=...) *)
 Definition w_m1 : @rec val := mkRec "m/a" [("x", ("string", VTok 21%N)); ("p", ("varint", VTok 22%N))] [VNone; VNone; VTok 2%N; w_ver].
